@@ -824,8 +824,10 @@ func RunStreamCapture(em *Emitter, tr int, st *Stream, capt *Capture) {
 				origMain = pl.Record
 			}
 		}
+		// (under whatever label: a main record that was relabelled is still in the batch, and the unchanged consumer
+		// refuses every such batch - as a duplicate, as a record of the wrong shape, or as an unknown type)
 		for _, pl := range toDecode.ArrowPayloads {
-			if pl.Type.String() == mainType(sig) && len(pl.Record) > 0 && string(pl.Record) == string(origMain) {
+			if len(pl.Record) > 0 && len(origMain) > 0 && string(pl.Record) == string(origMain) {
 				mainPresent = true
 			}
 		}
